@@ -272,6 +272,9 @@ def run(tier, seed):
     chk = vlib.Check(PROP, tier, seed)
     gate = vlib.coq_gate(PROP, extra_targets=dc.EXTRA_TARGETS)
     vlib.gate_or_violation(chk, gate)
+    if tier == "thorough":
+        # once per thorough pass over the properties: the independent checker over the whole development
+        vlib.coqchk_all(chk)
     binary, err = vlib.build_harness()
     if binary is None:
         chk.violation("broken-obligation", "harness-build", dict(error=err), no_input=True)
